@@ -13,9 +13,16 @@ AGREE = ['BezierSeg.v']
 def gen_points(rng, n):
     """control points from pools: magnitudes 1e-3..1e6, integers, halves,
     coincident / collinear configurations"""
-    mode = rng.choice(['rand', 'rand', 'rand', 'int', 'half', 'coincident', 'collinear', 'tiny', 'huge', 'mixed'])
+    mode = rng.choice(['rand', 'rand', 'rand', 'int', 'half', 'coincident', 'collinear', 'tiny', 'huge', 'mixed', 'pyint', 'npscalar'])
     def rnd(scale):
         return complex(rng.uniform(-scale, scale), rng.uniform(-scale, scale))
+    if mode == 'pyint':          # plain Python ints (real axis): the scalar type must not matter
+        pts = [rng.randint(-40, 40) for _ in range(n)]
+        if len(set(pts)) == 1: pts[-1] += 7
+        return pts, mode
+    if mode == 'npscalar':
+        import numpy as np
+        return [np.complex128(rnd(60)) if rng.random() < 0.5 else np.float64(rng.uniform(-60, 60)) for _ in range(n)], mode
     if mode == 'rand':
         sc = 10 ** rng.uniform(-3, 6)
         return [rnd(sc) for _ in range(n)], mode
